@@ -19,6 +19,8 @@ LEVEL = "exploration"
 RULE = ("Hypothesis histories (<=30 steps) over 19 attributes (Any/Int/Str/Float/List/Instance x comparison mode none/"
         "identity/equality, Event) with ops set / quiet set / read; values drawn by the attribute's type (85%) from a pool "
         "with repeats, equal-but-not-identical objects, NaNs, objects whose ==/bool raises, numpy arrays, rejected values; "
+        "optional pair of object-level handlers (the first may remove itself / raise during dispatch) and a 'bare' class "
+        "variant in which six attributes have no trait-level notifier at all; "
         "non-trivial = history containing an equal-not-identical pair, a rejection, a default read, a quiet set or a raising "
         "handler; distinct by digest")
 ASSUMPTIONS = ["default exception-handling configuration (handler exceptions are swallowed and logged)",
